@@ -1117,5 +1117,16 @@ theorem supply_frame {cfg : Cfg} {s s' : State} {op : Op} (a pl : Nat) (h : step
     simp only [touchesSupply] at hn
     exact supply_endBlock_other a pl hn h
   | beginBlock a' => simp only [step, Option.some.injEq] at h; subst h; rfl
+  | migrate =>
+    simp only [step] at h
+    unfold migrate at h
+    split at h
+    · cases h
+      unfold supply State.pool?
+      show (Option.map _ (findBy (isPool a pl) (s.pools.map _))).getD 0 = _
+      rw [findBy_map_ps]
+      · intro x; split <;> rfl
+      · intro x; split <;> rfl
+    · cases h
 
 end Comdex.LiqLedger
